@@ -448,6 +448,9 @@ func driverMain(args []string) {
 	if len(trouble) > 0 {
 		cov["harness_trouble"] = trouble
 	}
+	if es := envSeam(siteFiles); len(es) > 0 {
+		cov["environment_seam"] = es
+	}
 	if sc := siteCoverage(sitesHit, siteFiles); len(sc) > 0 {
 		cov["yield_site_reach"] = sc
 	}
@@ -553,6 +556,28 @@ func workerEnv() []string {
 // siteCoverage: which instrumented function entries / loop bodies of the code
 // under test the workload of this run executed at least once, per build
 // variant, with the ones it never reached written out.
+// envSeam reports, per instrumented variant, which environment reads of the
+// code under test were redirected to the simulator and which were left alone.
+func envSeam(siteFiles map[string]string) map[string]interface{} {
+	out := map[string]interface{}{}
+	for variant, f := range siteFiles {
+		b, err := os.ReadFile(f)
+		if err != nil {
+			continue
+		}
+		var t struct {
+			Env   map[string]int `json:"env_redirected"`
+			EnvNo map[string]int `json:"env_not_simulated"`
+		}
+		if json.Unmarshal(b, &t) != nil {
+			continue
+		}
+		out[variant] = map[string]interface{}{"redirected_to_simulator": t.Env, "not_simulated": t.EnvNo,
+			"note": "time.Now/Since/Until/Sleep, runtime.NumCPU/GOMAXPROCS(0), global math/rand functions; decided per scenario (Scenario.env)"}
+	}
+	return out
+}
+
 func siteCoverage(hit map[string]map[uint32]bool, siteFiles map[string]string) map[string]interface{} {
 	out := map[string]interface{}{}
 	for variant, hs := range hit {
